@@ -1,6 +1,7 @@
 #!/bin/bash
 # usage: run_seeds.sh <name> [<name>...]   (names of directories under /verif/seeded, e.g. C01-a)
 # Applies each seeded change to /repo, runs the quick check of its property, undoes it. Results: /verif/seeded/RESULTS.log
+export VERIF_OUT=/tmp/mutant_out  # keep committed evidence intact
 for n in "$@"; do
   d=/verif/seeded/$n; id=${n%%-*}
   [ -f $d/patch.diff ] || continue
